@@ -162,6 +162,9 @@ var respFaults = []string{"{{ 1 / zero }}\n", "{{ MISSING_IDENT_SENTINEL }}\n", 
 	// not used as a fault)
 	"{{ nv = rows.slice(9).rand() }}PAGE-SENTINEL-mid{{ nv = \"s\" }}\n", "{{ nv = nil }}PAGE-SENTINEL-mid{{ nv = 1 }}\n", "@each(v in [\"a\".at(4), 7])PAGE-SENTINEL-inner@end\n", "{{ nv = user.Missing9 }}\n",
 	"{{ [].contains() }}\n", "{{ rows.slice(9).contains() }}\n", "{{ \"\".contains() }}\n", "{{ rows.slice(9).join(1, 2) }}\n", "{{ [].slice(\"x\") }}\n", "{{ \"\".truncate() }}\n", "{{ [].append() }}\n",
+	// a name of the page re-assigned with another type two, three and four blocks further in
+	"{{ tt = 0 }}@each(r in rows)PAGE-SENTINEL-inner@if(r > 1){{ tt = \"many\" }}@end@end\n", "{{ tt = 0 }}@if(true)@if(true)@if(true){{ tt = 1.5 }}@end@end@end\n",
+	"{{ tt = \"s\" }}@each(r in rows)@for(k = 0; k < 1; k++)@if(r == 3)@each(q in [1]){{ tt = [1] }}@end@end@end@end\n", "{{ tt = [1] }}@if(zero)x@else@if(zero)y@else{{ tt = {a: 1} }}@end@end\n",
 	// the page fails in a later pass of a loop, after the loop has produced output
 	"@each(r in rows)PAGE-SENTINEL-inner {{ 6 / (2 - r) }}@end\n"}
 
